@@ -148,6 +148,8 @@ PROPS["C08"] = dict(
         "an origin has 'received' its own writes and what was shared with it; it is then delivered exactly what it misses (plus optional repeats)",
     ],
     runs=[
+        # 70 000 / 300 000 changes of each kind, delivered in order, reversed and shuffled (batches, duplicates) to three replicas vs. the reference table
+        dict(name="volume", pkg="c08", run="TestVolume", timeout=dict(quick=400, thorough=2400)),
         dict(name="regress", pkg="c08", run="TestRegress"),
         dict(name="random", pkg="c08", run="TestRandom", checks=dict(quick=120000, thorough=800000),
              shards=dict(quick=8, thorough=16), timeout=dict(quick=300, thorough=1800)),
@@ -200,6 +202,9 @@ PROPS["C10"] = dict(
           "at least one removal made on A did not reach B before the exchange. Distinct = distinct case."),
     assumptions=["one global strictly increasing clock (clock skew is C08's subject)", "the model tracks each node during the history and is itself compared with the node before the exchange"],
     runs=[
+        # every snapshot size 1..1100 (thorough 4200) sessions / twice as many subscriptions / half as many retained messages, with removals:
+        # merged by a fresh node and by a node that lives on snapshots alone
+        dict(name="sizes", pkg="c10", run="TestSizes", shards=dict(quick=8, thorough=16), timeout=dict(quick=300, thorough=2400)),
         dict(name="regress", pkg="c10", run="TestRegress"),
         dict(name="random", pkg="c10", run="TestRandom", checks=dict(quick=200000, thorough=1000000),
              shards=dict(quick=8, thorough=16), timeout=dict(quick=300, thorough=1800)),
@@ -491,6 +496,8 @@ PROPS["C07"] = dict(
           "present topics are prefix-related; e2e = a subscribe happens after a clear, or while prefix-related topics are retained. Distinct = distinct case."),
     assumptions=["one SUBSCRIBE replays the retained messages once per filter it carries", "gossip delivered before subscribing on another node"],
     runs=[
+        # a node that has held 70 000 / 300 000 topic names (most cleared again) still retains a publish on a new name; checkpoints around powers of 2 and 10
+        dict(name="lifetime", pkg="c07", run="TestLifetime", timeout=dict(quick=400, thorough=2400)),
         dict(name="regress", pkg="c07", run="TestRegress", timeout=300),
         dict(name="stateenum", pkg="c07", run="TestStateEnum", shards=dict(quick=4, thorough=16), timeout=dict(quick=300, thorough=1800)),
         dict(name="state", pkg="c07", run="TestState", checks=dict(quick=10000, thorough=100000), shards=dict(quick=8, thorough=16), timeout=dict(quick=300, thorough=1800)),
